@@ -95,7 +95,7 @@ func analyseHook(P *Program) *hookShape {
 		}
 	}
 	if h.link == nil || h.media == nil {
-		broken("ui.openExternally no longer takes (link string, mediaType *mime.MediaType)")
+		unfollowed("ui.openExternally no longer takes (link string, mediaType *mime.MediaType)")
 	}
 	eachInstr(fn, func(_ *ssa.BasicBlock, _ int, in ssa.Instruction) {
 		if call, ok := in.(*ssa.Call); ok && isLibCall(&call.Call, "os/exec", "", "Command") {
